@@ -215,7 +215,23 @@ fn sites_for(t: &[f64], k: usize, r: &mut Rng) -> (Vec<f64>, usize, usize) {
         let mut tau = vec![distinct[0]];
         tau.extend(distinct.iter());
         tau.push(*distinct.last().unwrap());
-        return (tau, 2, 2);
+        // independent end conditions (first or second derivative at each end)
+        let ln = *r.pick(&[1usize, 2, 2]);
+        let rn = *r.pick(&[1usize, 2, 2]);
+        return (tau, ln, rn);
+    }
+    if k == 3 && distinct.len() + 1 == n && r.chance(1, 2) {
+        // quadratic: knots as sites plus ONE end site repeated with a first-derivative condition
+        let mut tau = Vec::new();
+        let left = r.chance(1, 2);
+        if left {
+            tau.push(distinct[0]);
+        }
+        tau.extend(distinct.iter());
+        if !left {
+            tau.push(*distinct.last().unwrap());
+        }
+        return (tau, if left { 1 } else { 0 }, if left { 0 } else { 1 });
     }
     // plain interpolation: n strictly increasing sites satisfying Schoenberg-Whitney (Greville abscissae)
     let mut tau = Vec::new();
@@ -223,7 +239,6 @@ fn sites_for(t: &[f64], k: usize, r: &mut Rng) -> (Vec<f64>, usize, usize) {
         let s: f64 = if k > 1 { t[i + 1..i + k].iter().sum::<f64>() / ((k - 1) as f64) } else { (t[i] + t[i + 1]) / 2.0 };
         tau.push(s);
     }
-    let _ = r;
     (tau, 0, 0)
 }
 
